@@ -1004,7 +1004,22 @@ func checkSubscriptionManager(r *Reporter, p *Prog) {
 			var keep []Point
 			for _, ch := range clientChanges {
 				if _, op := mapOp2(lf, ch, mapOp); op != "Delete" {
-					keep = append(keep, ch)
+					// ... nor is writing the count that was read back unchanged (the undo of an increment)
+					restore := false
+					inspectNoLit(lf.nodeAt(ch), func(n ast.Node) bool {
+						if cl, ok := n.(*ast.CallExpr); ok {
+							if k, op := mapOp(n); k == "client" && op == "Set" && len(cl.Args) == 2 {
+								vk := lf.KeyAt(cl.Args[1], ch)
+								if strings.Contains(vk, ".Get(") && !strings.ContainsAny(vk, "+-") {
+									restore = true
+								}
+							}
+						}
+						return true
+					})
+					if !restore {
+						keep = append(keep, ch)
+					}
 				}
 			}
 			clientChanges = keep
@@ -1042,7 +1057,17 @@ func checkSubscriptionManager(r *Reporter, p *Prog) {
 					return okp && !strings.Contains(lf.KeyAt(cl.Args[1], pt), "+1")
 				}
 			}
-			w, found := lf.reach(Point{ch.B, ch.I + 1}, &searchOpts{AvoidNode: func(n ast.Node) bool { return isGlobal(n) || isUndo(n) }}, func(pt Point, atExit bool) bool {
+			// what the branch into the change's block established (`if has { Set(count+1) }`) is known
+			// on the paths that start there
+			var fromEdge *Edge
+			if ps := lf.preds()[ch.B]; len(ps) == 1 && len(ps[0].Succs) == 2 && condOf(ps[0]) != nil {
+				for si, sc := range ps[0].Succs {
+					if sc == ch.B {
+						fromEdge = &Edge{ps[0], si}
+					}
+				}
+			}
+			w, found := lf.reach(Point{ch.B, ch.I + 1}, &searchOpts{FromEdge: fromEdge, AvoidNode: func(n ast.Node) bool { return isGlobal(n) || isUndo(n) }}, func(pt Point, atExit bool) bool {
 				if atExit {
 					return row.m == "Subscribe" // Unsubscribe may stop when the global entry is missing (checked below)
 				}
